@@ -32,6 +32,9 @@ enum Kind {
     UpdateStale,
     WorkspaceAdd,
     AtOp(usize),
+    OpAbandon,
+    Gc,
+    RecoverThen,
     Edit,
 }
 
@@ -55,6 +58,7 @@ struct World {
     ops: Vec<OpInfo>,
     digests: HashMap<Vec<u8>, u64>,
     commit_tree: HashMap<String, Option<u64>>, // commit id -> digest number (None = conflicted)
+    tree_cache: HashMap<String, u64>,          // recorded working-copy tree ids -> digest number
 }
 
 fn ws_num(name: &str) -> u64 {
@@ -210,7 +214,12 @@ fn wc_state(w: &mut World, ws_root: &Path) -> Option<(u64, usize)> {
     if tree.has_conflict() {
         return None;
     }
-    // digest of the recorded tree: read it like a commit tree
+    // digest of the recorded tree: read it like a commit tree (cached by tree id: after
+    // `jj util gc` the objects of an abandoned working-copy commit may be gone)
+    let key = format!("{:?}", tree.tree_ids());
+    if let Some(d) = w.tree_cache.get(&key) {
+        return Some((*d, op));
+    }
     let store = ws.repo_loader().store();
     let mut v = vec![];
     for (path, value) in tree.entries() {
@@ -225,7 +234,9 @@ fn wc_state(w: &mut World, ws_root: &Path) -> Option<(u64, usize)> {
         }
     }
     v.sort();
-    Some((w.intern(canon(&v)), op))
+    let d = w.intern(canon(&v));
+    w.tree_cache.insert(key, d);
+    Some((d, op))
 }
 
 fn opinfo_term(o: &OpInfo) -> String {
@@ -245,6 +256,24 @@ fn nat_list(xs: &[usize]) -> String {
     format!("[{}]", v.join("; "))
 }
 
+/// Everything the operation log reachable from `heads` records: (operation, workspace, tree).
+fn enumerate_log(w: &mut World, loader: &RepoLoader, heads: &[String], out: &mut BTreeSet<(usize, u64, u64)>) -> Result<(), &'static str> {
+    let all = cmdsess::new_ops(loader, heads, &|_| false);
+    for op in all {
+        let Some(&i) = w.op_num.get(&op.id().hex()) else { return Err("final-unknown-op") };
+        let Ok(view) = op.view().block_on() else { return Err("final-view") };
+        for (name, cid) in view.wc_commit_ids() {
+            match commit_digest(w, loader, cid) {
+                Some(d) => {
+                    out.insert((i, ws_num(name.as_str()), d));
+                }
+                None => return Err("final-conflict"),
+            }
+        }
+    }
+    Ok(())
+}
+
 struct SessionResult {
     term: String,
     nontrivial: bool,
@@ -254,7 +283,7 @@ struct SessionResult {
 
 fn failed_case(why: &str) -> SessionResult {
     SessionResult {
-        term: "(mk_case (mk_state [mk_op [1] []] [] []) [] [] false)%nat".into(),
+        term: "(mk_case (mk_state [mk_op [1] []] [] [] []) [] [] false)%nat".into(),
         nontrivial: false,
         shapes: vec![format!("harness-failure:{why}")],
         invocations: 0,
@@ -326,7 +355,7 @@ fn session(index: usize, mut rng: Rng, scratch: &Path, tier: &str) -> SessionRes
         v
     };
     let init_term = format!(
-        "(mk_state [{}] {} {})",
+        "(mk_state [{}] {} {} [])",
         w.ops.iter().map(opinfo_term).collect::<Vec<_>>().join("; "),
         nat_list(&head_nums(&w, &heads)),
         wsl_term(&cur_ws)
@@ -345,8 +374,12 @@ fn session(index: usize, mut rng: Rng, scratch: &Path, tier: &str) -> SessionRes
     let mut n_atop = 0;
     let mut exempt = false;
     // scripted pool: forget / restore away the second workspace and keep using its directory
-    let script_absent = rng.chance(1, 8);
+    let script_recover = index == 0 || rng.chance(1, 6);
+    let script_absent = !script_recover && rng.chance(1, 8);
     let script_at = rng.range(0, 2) as usize;
+    let nsteps = if script_recover { nsteps.max(script_at + 9) } else { nsteps };
+    let mut recorded_set: BTreeSet<(usize, u64, u64)> = BTreeSet::new();
+    let mut n_recover = 0;
     let mut script: std::collections::VecDeque<Item> = std::collections::VecDeque::new();
     let mut final_heads = heads.clone();
     for step in 0..nsteps {
@@ -361,6 +394,31 @@ fn session(index: usize, mut rng: Rng, scratch: &Path, tier: &str) -> SessionRes
             script.push_back(Item { wi: 0, pre: Pre::Nothing, args: remove, kind: Kind::Normal });
             script.push_back(Item { wi: 1, pre: Pre::Modify("g"), args: sv(&["new", "root()"]), kind: Kind::Normal });
         }
+        if script_recover && step == script_at {
+            // lose the operation the second workspace's working copy points at
+            let sv = |v: &[&str]| -> Vec<String> { v.iter().map(|x| x.to_string()).collect() };
+            if !have_w2 {
+                script.push_back(Item { wi: 0, pre: Pre::Nothing, args: sv(&["workspace", "add", "../w2"]), kind: Kind::WorkspaceAdd });
+            }
+            script.push_back(Item { wi: 1, pre: Pre::Create("g"), args: sv(&["status"]), kind: Kind::Normal });
+            // unsnapshotted edits on top: a new file, and in half of the sessions a change of g
+            script.push_back(Item { wi: 1, pre: Pre::Create("h2"), args: vec![], kind: Kind::Edit });
+            // (never in the fixed session 0: there g stays exactly as it was snapshotted)
+            if rng.chance(1, 2) && index != 0 {
+                script.push_back(Item { wi: 1, pre: Pre::Modify("g"), args: vec![], kind: Kind::Edit });
+            }
+            script.push_back(Item { wi: 0, pre: Pre::Nothing, args: sv(&["abandon", "w2@"]), kind: Kind::Normal });
+            script.push_back(Item { wi: 0, pre: Pre::Nothing, args: sv(&["op", "abandon", "..@-"]), kind: Kind::OpAbandon });
+            script.push_back(Item { wi: 0, pre: Pre::Nothing, args: sv(&["util", "gc", "--expire=now"]), kind: Kind::Gc });
+            if rng.chance(1, 2) {
+                script.push_back(Item { wi: 1, pre: Pre::Nothing, args: sv(&["status"]), kind: Kind::Normal });
+            }
+            if rng.chance(1, 2) {
+                script.push_back(Item { wi: 1, pre: Pre::Nothing, args: sv(&["workspace", "update-stale"]), kind: Kind::UpdateStale });
+            } else {
+                script.push_back(Item { wi: 1, pre: Pre::Nothing, args: sv(&["--config", "snapshot.auto-update-stale=true", "status"]), kind: Kind::RecoverThen });
+            }
+        }
         let item = script.pop_front();
         let wi = match &item {
             Some(it) => it.wi,
@@ -370,7 +428,14 @@ fn session(index: usize, mut rng: Rng, scratch: &Path, tier: &str) -> SessionRes
             let dir = wss[wi.min(wss.len() - 1)].dir.clone();
             match it.pre {
                 Pre::Nothing => {}
-                Pre::Create(n) => std::fs::write(dir.join(n), "one\n").unwrap(),
+                Pre::Create(n) => {
+                    std::fs::write(dir.join(n), "one\n").unwrap();
+                    // an old modification time, so that the file is cached as clean by the
+                    // snapshot that follows (no same-granule re-check)
+                    if let Ok(f) = std::fs::File::options().write(true).open(dir.join(n)) {
+                        let _ = f.set_modified(std::time::SystemTime::now() - std::time::Duration::from_secs(30));
+                    }
+                }
                 Pre::Modify(n) => std::fs::write(dir.join(n), "two, modified and not snapshotted\n").unwrap(),
             }
             if let Some(post) = observe_ws(&mut w, &wss) {
@@ -384,6 +449,9 @@ fn session(index: usize, mut rng: Rng, scratch: &Path, tier: &str) -> SessionRes
                     cur_ws = post;
                 }
             }
+        }
+        if matches!(&item, Some(it) if it.args.is_empty()) {
+            continue;
         }
         let wi = wi.min(wss.len() - 1);
         // ---- file edits in the chosen workspace
@@ -582,17 +650,31 @@ fn session(index: usize, mut rng: Rng, scratch: &Path, tier: &str) -> SessionRes
             }
         }
         let heads_before: Vec<usize> = head_nums(&w, &heads);
+        if kind == Kind::OpAbandon {
+            if let Err(e) = enumerate_log(&mut w, &loader, &heads, &mut recorded_set) {
+                return failed_case(e);
+            }
+        }
         let out = sess.jj(&wss[wi].dir.clone(), &args);
         if out.timed_out {
             return failed_case("timeout");
         }
         let status: u64 = if out.rc == 0 {
             0
-        } else if out.stderr.contains("working copy is stale") || out.stderr.contains("seems to be a sibling") {
+        } else if out.stderr.contains("working copy is stale")
+            || out.stderr.contains("seems to be a sibling")
+            || out.stderr.contains("Could not read working copy's operation")
+        {
             1
+        } else if out.rc == 101 || out.rc < 0 || out.stderr.contains("panicked") || out.stderr.contains("Internal error") {
+            // a panic or an internal error is never an acceptable outcome
+            3
         } else {
             2
         };
+        if status == 3 {
+            shapes.push("status:panic-or-internal-error".into());
+        }
         // ---- observation
         let new_heads = cmdsess::op_heads(&wss[0].dir);
         let nops_before = w.ops.len();
@@ -633,7 +715,7 @@ fn session(index: usize, mut rng: Rng, scratch: &Path, tier: &str) -> SessionRes
         if status == 1 {
             n_stale += 1;
             wss[wi].known_stale = true;
-        } else if status == 0 && !matches!(kind, Kind::IgnoreWc | Kind::AtOp(_)) {
+        } else if status == 0 && !matches!(kind, Kind::IgnoreWc | Kind::AtOp(_) | Kind::OpAbandon) {
             wss[wi].known_stale = false;
         }
         if kind == Kind::UpdateStale && status == 0 {
@@ -648,8 +730,14 @@ fn session(index: usize, mut rng: Rng, scratch: &Path, tier: &str) -> SessionRes
             Kind::UpdateStale => "KUpdateStale".to_string(),
             Kind::WorkspaceAdd => "(KWorkspaceAdd 1%N)".to_string(),
             Kind::AtOp(x) => format!("(KAtOp {x})"),
+            Kind::OpAbandon => "KOpAbandon".to_string(),
+            Kind::Gc => "KGc".to_string(),
+            Kind::RecoverThen => "KRecoverThen".to_string(),
             Kind::Edit => "KEdit".to_string(),
         };
+        if matches!(kind, Kind::UpdateStale | Kind::RecoverThen) && out.stderr.contains("recovery commit") {
+            n_recover += 1;
+        }
         // a command that found several operation heads first merges them: that operation is
         // reported as its own step
         let mut added = added;
@@ -695,22 +783,12 @@ fn session(index: usize, mut rng: Rng, scratch: &Path, tier: &str) -> SessionRes
         }
         cur_ws = post;
     }
-    // ---- final enumeration of everything the operation log records (independent pass)
-    let mut recorded: Vec<String> = vec![];
-    {
-        let all = cmdsess::new_ops(&loader, &final_heads, &|_| false);
-        for op in all {
-            let Some(&i) = w.op_num.get(&op.id().hex()) else { return failed_case("final-unknown-op") };
-            let Ok(view) = op.view().block_on() else { return failed_case("final-view") };
-            for (name, cid) in view.wc_commit_ids() {
-                match commit_digest(&mut w, &loader, cid) {
-                    Some(d) => recorded.push(format!("({i}, {}%N, {d}%N)", ws_num(name.as_str()))),
-                    None => return failed_case("final-conflict"),
-                }
-            }
-        }
-        recorded.sort();
+    // ---- final enumeration of everything the operation log records (independent pass),
+    // together with the enumerations taken just before operations were abandoned
+    if let Err(e) = enumerate_log(&mut w, &loader, &final_heads, &mut recorded_set) {
+        return failed_case(e);
     }
+    let recorded: Vec<String> = recorded_set.iter().map(|(i, n, d)| format!("({i}, {n}%N, {d}%N)")).collect();
     let term = format!(
         "(mk_case {init_term} [{}] [{}] {})%nat",
         events.join("; "),
@@ -737,6 +815,9 @@ fn session(index: usize, mut rng: Rng, scratch: &Path, tier: &str) -> SessionRes
     }
     if n_atop > 0 {
         shapes.push("session:at-op".into());
+    }
+    if n_recover > 0 {
+        shapes.push("session:recovery-commit".into());
     }
     if n_merge > 0 {
         shapes.push("session:merged-operation-heads".into());
